@@ -67,4 +67,13 @@ LEVELS = {
   'note': 'Trusted: Lean kernel (+ Mathlib nlinarith in Lemmas/Arith.lean); hub model; A-CHAIN-3 (delegations are token amounts; a delegation object survives a slash to zero).',
   'technique': 'Lean 4 nonlinear floor-arithmetic bounds; exact-share oracle on implementation checks',
  },
+ 'C17': {
+  'text': 'Proved for every balance, bonded amount, oracle price and keeper rate in [0,1]: the requested swap never offers more of a coin than is held (C17_offer_le_available, both branches, uses inv(r)*r <= 1); '
+          'the stSei side is left with exactly floor(total*st/(st+b)) when selling and never overshoots it when buying (C17_share; the lower bound of the buying branch - within one bSei-reward unit at the oracle price - is checked numerically by the harness, not proved); '
+          'DispatchRewards cannot fail on its own arithmetic, sends the keeper exactly floor(balance*rate) of each coin and the sum of everything sent equals the balance held (C17_dispatch_conserves); '
+          'the keeper rate stays <= 1 from instantiate and under every message (C17_keeper_rate_le_one). '
+          'The no-zero-transfer clause is FALSE for the code (D3): proved only under positive cut and remainder (C17_no_zero_transfer_partial), negation proved (C17_zero_transfer_counterexample) and replayed on the real contracts (corpus/D3.ops); known finding.',
+  'note': 'Trusted: Lean kernel (+ nlinarith), dispatcher model, swap/oracle stubs (E6). PARTIAL: no-zero-transfer (known finding D3, three call sites), and the sub-unit lower bound of the buying branch.',
+  'technique': 'Lean 4 theorems on get_swap_info / dispatch message construction; function-level differential correspondence through the real execute entry point',
+ },
 }
